@@ -23,6 +23,8 @@ InFamily(x) ==
   \/ \E m \in 0..2 : x \in [kind : {"cat"}, t : [1..m -> 1..NC], s : {<<>>}, i : {0}, l : {0}]
   \/ x \in [kind : {"cat3"}, t : [1..3 -> {1, 3, 5, 9, 13, 17, 23, 25, 30, 31}], s : {<<>>}, i : {0}, l : {0}]
   \/ x \in [kind : {"sub"}, t : {<<>>}, s : Strs, i : 1..Len(IX16), l : 0..Len(IX16)]
+  \* thorough: strings of length 5..8 over {a, emoji} (1- and 4-byte characters), every start / length of the index corpus
+  \/ (Deep /\ \E m \in 5..8 : x \in [kind : {"sub"}, t : {<<>>}, s : [1..m -> {1, 4}], i : 1..Len(IX16), l : 0..Len(IX16)])
   \/ x \in [kind : {"badix"}, t : {<<>>}, s : {<<1, 2>>}, i : 1..Len(BADIX16), l : 0..1]
   \/ x \in [kind : {"nonstr"}, t : {<<>>}, s : {<<>>}, i : 1..Len(NS16), l : {0}]
 
